@@ -38,6 +38,19 @@ def _is_stub(o: Any) -> bool:
     return getattr(o, "_folder_stub", False) is True
 
 
+class _Yielded:
+    """Values a generator function yielded, then (lazily) whatever ended its evaluation."""
+
+    def __init__(self, items, err):
+        self.items, self.err = list(items), err
+
+    def __iter__(self):
+        for x in self.items:
+            yield x
+        if self.err is not None:
+            raise self.err if isinstance(self.err, Unknown) else Unknown(f"generator stopped by {type(self.err).__name__}: {self.err}")
+
+
 class FolderX(Folder):
     """Folder + calls of container methods on plain containers reached from the fragment's objects (they change the container
     the analysed code would change), getattr / hasattr / setattr / vars / id on rule-supplied stubs."""
@@ -60,6 +73,25 @@ class FolderX(Folder):
                         r = getattr(recv, f.attr)(*self._elts(n.args))
                         return list(r) if f.attr in ("keys", "values", "items") else r
         if isinstance(f, ast.Name) and f.id not in self.local and not n.keywords:
+            # lazy iteration builtins: `next(filter(None, generator()))` must not run the generator further than the first hit
+            if f.id == "filter" and len(n.args) == 2:
+                pred, it = self.fold(n.args[0]), self.fold(n.args[1])
+                return (x for x in it if (pred(x) if pred is not None else x))
+            if f.id == "map" and len(n.args) == 2:
+                fn_, it = self.fold(n.args[0]), self.fold(n.args[1])
+                return (fn_(x) for x in it)
+            if f.id == "iter" and len(n.args) == 1:
+                return iter(self.fold(n.args[0]))
+            if f.id == "next" and len(n.args) in (1, 2):
+                it = self.fold(n.args[0])
+                if not hasattr(it, "__next__"):
+                    it = iter(it)
+                try:
+                    return next(it)
+                except StopIteration:
+                    if len(n.args) == 2:
+                        return self.fold(n.args[1])
+                    raise
             if f.id == "getattr" and len(n.args) in (2, 3):
                 o, name = self.fold(n.args[0]), self.fold(n.args[1])
                 if _is_stub(o) and isinstance(name, str):
@@ -205,6 +237,9 @@ class BlockEvalX(BlockEval):
         params = [p.arg for p in a.args]
         defaults = dict(zip(params[len(params) - len(a.defaults) :], a.defaults)) if a.defaults else {}
         outer = self
+        is_generator = any(isinstance(n, ast.Yield) for n in ast.walk(fn))
+        if any(isinstance(n, ast.YieldFrom) for n in ast.walk(fn)):
+            raise Unknown(f"`yield from` in `{fn.name}`")
 
         def call(*vals):
             if outer.depth > 12:
@@ -227,6 +262,18 @@ class BlockEvalX(BlockEval):
                     raise TypeError(f"{fn.name}() missing argument {p}")
                 sub.env[p] = sub.fold(defaults[p])
             body = [s for s in fn.body if not (isinstance(s, ast.Expr) and isinstance(s.value, ast.Constant))]
+            if is_generator:
+                # a generator function: its body is run to the end (or to the first construct outside the evaluator) and the yielded values are
+                # handed out in order; what stopped the run is raised only when the consumer asks beyond the values yielded before it - exactly
+                # what a lazy generator does, as long as the expressions it evaluates have no effects the consumer could see
+                sub.env["__yielded__"] = []
+                err: Optional[BaseException] = None
+                try:
+                    sub.run(body)
+                except Exception as ex:  # noqa: BLE001 - deferred, see above
+                    err = ex
+                outer.steps += sub.steps
+                return _Yielded(sub.env["__yielded__"], err)
             kind, val = sub.run(body)
             outer.steps += sub.steps
             if outer.steps > outer.max_steps:
@@ -239,6 +286,9 @@ class BlockEvalX(BlockEval):
         return call
 
     def _stmt(self, st: ast.stmt) -> None:
+        if isinstance(st, ast.Expr) and isinstance(st.value, ast.Yield) and "__yielded__" in self.env:
+            self.env["__yielded__"].append(self.fold(st.value.value) if st.value.value is not None else None)
+            return
         if isinstance(st, ast.FunctionDef):
             if st.decorator_list:
                 raise Unknown(f"decorated local helper `{st.name}`")
